@@ -227,7 +227,7 @@ func completion(p *run.Part, cfg *seqx.Config, frontier [][]seqx.Op, dl *run.Dea
 }
 
 func c01Searches(p *run.Part, tier string) []*seqx.Search {
-	depth := 5
+	depth := 6
 	if tier == "thorough" {
 		depth = 7
 	}
